@@ -12,6 +12,6 @@ PROPS = {
     'C04': dict(
         micro=['dedup', 'cidq'],
         modelled="cid_queue.rs CidQueue (which reset token is reported when the CID in use changes: exact micro-differential incl. tokens); spaces.rs Dedup::insert (u128 window as Nat mod 2^128); the receive pipeline of handle_packet / handle_first_packet (decrypt, duplicate filter, state filters, authentication accounting excluding unprotected packets) and the stateless-reset / Retry / Version-Negotiation acceptance tests as a decision model whose order and conditions are pinned by T1 shape anchors",
-        not_modelled="AEAD (ideal by hypothesis), key selection across key updates (decrypt_packet_body), the frame handlers behind a processed packet",
+        not_modelled="AEAD (ideal by hypothesis; key selection across key updates is modelled in Conn/KeyUpdate.lean, see props.d/keyupd.py), the frame handlers behind a processed packet",
     ),
 }
